@@ -10,7 +10,8 @@
    byte-exact generator correspondence and judged on the reference machine. *)
 From Coq Require Import ZArith List String Bool.
 From Gigue Require Import Types Bits Isa Enc GenTables Builder BuilderTies Samplers Generator Machine MachineLemmas
-  SplitProofs FragProofs GenLemmas ImageSem CtorSpec C12Defs C12Proofs.
+  SplitProofs FragProofs GenLemmas ImageSem CtorSpec C12Defs C12Proofs
+  GenWF GenWFProps SliceLemmas GenWF2 GenWF2Props BodyExec GenWF5 CodeMem MethodContract SaveRestore WholeImage Loader Reloc RelocRun.
 Import ListNotations.
 Open Scope Z_scope.
 
@@ -22,6 +23,60 @@ Definition C07_relocation_statement : Prop :=
   forall b L1 L2 s1 s2, Init c img b L1 s1 -> Init c img b L2 s2 ->
   forall n, (exists t, run (variant_of (c_variant c)) L1 n s1 = (Halt t, n)) <->
             (exists t, run (variant_of (c_variant c)) L2 n s2 = (Halt t, n)).
+
+(* PROVED for every accepted configuration, EVERY decision script (hence every
+   seed) and every multiple d of 4 (Reloc.run_gen_equivariant): THE GENERATOR IS
+   TRANSLATION-EQUIVARIANT.  Generating with both start addresses shifted by d
+   (`shc d c`) consumes the script identically, fails with the same error when
+   the original does, and otherwise produces `shi d img`: EXACTLY THE SAME WORDS
+   in int.bin, jit.bin, data.bin and ss.bin, every recorded method / PIC address
+   shifted by d.  Hence no generated instruction materialises an absolute code
+   or data address: the emitted bytes do not depend on where the image is meant
+   to be loaded (only on the distance between the two start addresses).
+   By a relational Hoare logic over the generator monad (`rel`), through all
+   phases: element generation, call patching (offsets are differences of
+   addresses), the interpreter loop (using the Layer-A invariant that every
+   element refers to an existing method), padding and data. *)
+Theorem C07_generator_translation_equivariant : forall d, d mod 4 = 0 ->
+  forall c script, cfg_ok c = true ->
+  run_gen (shc d c) script =
+  match run_gen c script with OK (img, rest) => OK (shi d img, rest) | Err e => Err e end.
+Proof. exact run_gen_equivariant. Qed.
+
+Theorem C07_files_do_not_depend_on_load_address : forall d, d mod 4 = 0 ->
+  forall c script img rest, cfg_ok c = true -> run_gen c script = OK (img, rest) ->
+  exists img', run_gen (shc d c) script = OK (img', rest) /\
+    im_int img' = im_int img /\ im_jit img' = im_jit img /\ im_data img' = im_data img /\ im_ss img' = im_ss img /\
+    im_int_instrs img' = im_int_instrs img /\ im_tramps img' = im_tramps img /\
+    im_methods img' = map (shm d) (im_methods img) /\ im_elements img' = map (she d) (im_elements img).
+Proof. exact files_position_independent. Qed.
+
+(* PROVED (Layer B), the two plain variants: THE SAME FILES RUN AT ANY 4-ALIGNED LOAD
+   ADDRESS.  The image generated for (I0, J0), placed at (I0 + d, J0 + d) with the data
+   section and the stack at any suitably aligned addresses (`Init` for the
+   relocated layout), runs from the interpreter entry to the halt address
+   without any fault in EXACTLY THE SAME NUMBER OF STEPS `image_steps c img eh`
+   (computed from the ORIGINAL image) - by the whole-image theorem applied to
+   the shifted configuration, whose image is the same words (theorem above).
+   `_partial`: equality of the executed instruction SEQUENCE (not only of its
+   length, the structure of the run and its final state) and of the sequence of
+   data offsets is not stated; the three protected variants are not instantiated. *)
+Theorem C07_plain_image_runs_relocated_partial : forall d, d mod 4 = 0 ->
+  forall c script img,
+  successful c script img -> plain c -> (uses_tramp (c_variant c) = true -> c_data_reg c <> 6) ->
+  cfg_ok (shc d c) = true ->
+  forall L s0, Init (shc d c) (shi d img) (Ntot c img) L s0 -> code_lo L = int_start_al c + d ->
+    code_hi L - code_lo L < 2147483648 - 2048 -> pics_encodable (shi d img) ->
+    (forall r o, In (r, o) int_slots -> 0 <= rget s0 r < W64) ->
+    exists s' eh, map fst eh = im_elements img /\
+      run (gv c) L (image_steps c img eh) s0 = (Next s', image_steps c img eh) /\ pc s' = halt_at L /\
+      dom s' = 0 /\ cfi s' = [].
+Proof. exact plain_image_runs_relocated. Qed.
+
+(* accepted configurations stay accepted under any shift that keeps the start address non-negative *)
+Theorem C07_shifted_configuration_accepted : forall d c,
+  cfg_ok c = true -> 0 <= c_int_start c + d -> cfg_ok (shc d c) = true.
+Proof. intros d c. exact (cfg_ok_sh d c). Qed.
 
 (* every stub is position independent: executed at ANY address A it reaches
    A + offset (the theorems quantify over A and over the whole register file) *)
@@ -54,6 +109,10 @@ Theorem C07_fragment_bases_partial :
   && frags_decode_ok ExtFixer "fixer" [SP] false = true.
 Proof. exact fragments_well_formed. Qed.
 
+Print Assumptions C07_generator_translation_equivariant.
+Print Assumptions C07_files_do_not_depend_on_load_address.
+Print Assumptions C07_plain_image_runs_relocated_partial.
+Print Assumptions C07_shifted_configuration_accepted.
 Print Assumptions C07_call_stub_relative_partial.
 Print Assumptions C07_address_save_relative_partial.
 Print Assumptions C07_fragment_bases_partial.
